@@ -101,8 +101,9 @@ End Scalar.
 Section ReductionOps.
 Context {V : Type} (o : ops V).
 Definition op_count (x : Z) (y : V) : Z := x + 1.
-Definition op_min (x y : V) : V := if leb o x y then x else y.
-Definition op_max (x y : V) : V := if leb o y x then x else y.
+(* a null operand is only met when nulls are not skipped: it makes the result null *)
+Definition op_min (x y : V) : V := if is_null o x then x else if is_null o y then y else if leb o x y then x else y.
+Definition op_max (x y : V) : V := if is_null o x then x else if is_null o y then y else if leb o y x then x else y.
 Definition op_sum (x y : V) : V := add o x y.
 Definition op_first (x y : V) : V := x.
 Definition op_first_skipna (x y : V) : V := if is_null o x then y else x.
